@@ -156,7 +156,7 @@ def task_session(args):
         if st != 'ok' or not res[0] or len(wrote) != 1:
             classes.add((fam, 'send refused'))
             continue                      # a refused send is C16's business; nothing crossed the wire
-        b = W.replay({'rib': bool(n % 2)}, est, M)      # the receiver alternately with and without RIB maintenance (CONF.bgp.rib)
+        b = W.replay({'rib': fam == 'combo' or bool(n % 2)}, est, M)      # the receiver alternately with and without RIB maintenance (CONF.bgp.rib)
         got = []
         b.handler.update_received = lambda peer, ts, m: got.append(copy.deepcopy(m))
         errs = []
@@ -190,6 +190,10 @@ def run_pool(prop, which, tier, seed, rule, assumptions):
     # the session path (send_update -> wire -> second agent -> handler) on every k-th slice of the pool
     k = 6 if tier == 'quick' else 3
     tasks += [('session', prop, which, lo, lo + step // 3, tier) for i, lo in enumerate(range(0, total_cases, step)) if i % k == seed % k]
+    if which == 'c07':
+        # the message shapes that mix families always go through the session path (receiver with RIB maintenance on)
+        ncombo = sum(1 for _ in combination_cases(tier))
+        tasks.append(('session', prop, which, total_cases - ncombo, total_cases, tier))
     res = explore.pmap(_dispatch, tasks, chunk=1)
     explore.close_pool()
     total = 0
